@@ -1,4 +1,4 @@
-// C15, HEVC half: shared helpers (avoid switches for confirmed library defects, draw helpers, field diff).
+// C15, HEVC half: shared helpers (environment override of the avoid switches, field diff).
 package c15
 
 import (
@@ -8,8 +8,7 @@ import (
 	"regexp"
 	"strings"
 
-	"pgregory.net/rapid"
-
+	"verif/internal/esgen"
 	"verif/internal/harness"
 )
 
@@ -24,11 +23,11 @@ func init() {
 		for _, n := range strings.Split(s, ",") {
 			n = strings.TrimSpace(n)
 			if n == "all" {
-				for k := range hevcAvoidKnown {
-					hevcAvoidKnown[k] = false
+				for k := range esgen.HEVCAvoidKnown {
+					esgen.HEVCAvoidKnown[k] = false
 				}
-			} else if _, ok := hevcAvoidKnown[n]; ok {
-				hevcAvoidKnown[n] = false
+			} else if _, ok := esgen.HEVCAvoidKnown[n]; ok {
+				esgen.HEVCAvoidKnown[n] = false
 			} else if n != "" {
 				fmt.Fprintf(os.Stderr, "C15_HEVC_UNAVOID: unknown switch %q\n", n)
 				os.Exit(2)
@@ -37,157 +36,8 @@ func init() {
 	}
 }
 
-// hevcAvoidKnown: one switch per CONFIRMED defect of the unchanged library (each verified by decoding the
-// bits by hand; minimal reproducers are /verif/replay/C15/kf-<name>.json). While a switch is true the
-// generators do not produce the feature (every avoided draw is counted with harness.Rec.Exclude(name)), so
-// the suite is silent on the unchanged tree; set a switch to false (or C15_HEVC_UNAVOID=<name>) and the
-// defect is found within a few hundred cases.
-var hevcAvoidKnown = map[string]bool{
-	// hevc.parseVUI: aspect_ratio_idc = 0 ("Unspecified", Table E.1, a legal value) makes ParseSPSNALUnit fail
-	// with "GetSARFromIDC: SAR bad index 0" (avc.GetSARfromIDC rejects index 0).
-	"hevc-vui-aspect-ratio-idc-0": false, // repaired in /repo (fix: commit), see known_findings.json
-	// hevc.SubLayerOrderingInfo.MaxLatencyIncreasePlus1 is a byte, but sps_max_latency_increase_plus1 is ue(v)
-	// with range 0..2^32-2 (7.4.3.2.1): values > 255 are truncated (256 -> 0).
-	"hevc-sps-max-latency-increase-byte": true,
-	// hevc.parseShortTermRPS: for inter_ref_pic_set_prediction_flag = 1 the derived set (7-61, 7-62) is not
-	// computed: NumNegativePics/NumPositivePics/DeltaPocS0/S1/UsedByCurrPicS0/S1 stay empty, only NumDeltaPocs
-	// is counted. While avoided, the comparison of inter-predicted sets is restricted to NumDeltaPocs (flag
-	// RelaxInterRPS in the case) and slices do not combine an inter-predicted active RPS with
-	// ref_pic_lists_modification (where the wrong NumPicTotalCurr = 0 misparses the header).
-	"hevc-strps-interpred-not-derived": true,
-	// hevc.ParseSliceHeader: short_term_ref_pic_set_sps_flag = 1 with num_short_term_ref_pic_sets = 1:
-	// short_term_ref_pic_set_idx is not present and inferred 0 (7.4.7.1), i.e. the slice uses RPS 0 of the SPS.
-	// The library leaves ShortTermRefPicSet empty (so NumPicTotalCurr misses the short-term pictures).
-	"hevc-slice-strps-idx-inferred": false, // repaired in /repo (fix: commit), see known_findings.json
-	// hevc.ParseSliceHeader: num_long_term_ref_pics_sps = 1 and num_long_term_sps = 1: lt_idx_sps[i] is not
-	// present and inferred 0; the library leaves the entry empty (PocLsbLt 0, UsedByCurrPicLtFlag false) and
-	// does not count it in NumPicTotalCurr.
-	"hevc-slice-lt-idx-inferred": false, // repaired in /repo (fix: commit), see known_findings.json
-	// hevc.ParseSliceHeader: slice_deblocking_filter_disabled_flag, when not present, is inferred equal to
-	// pps_deblocking_filter_disabled_flag (7.4.7.1); the library uses false, so with
-	// pps_deblocking_filter_disabled_flag = 1, no override, SAO flags 0 and
-	// pps_loop_filter_across_slices_enabled_flag = 1 it reads slice_loop_filter_across_slices_enabled_flag,
-	// which is not in the bitstream (everything after is shifted by one bit).
-	"hevc-slice-deblocking-disabled-inferred": false, // repaired in /repo (fix: commit), see known_findings.json
-	// hevc.parsePredWeightTable ("Not implemented" in the source): with pps_curr_pic_ref_enabled_flag = 1 an
-	// entry of RefPicListX that is the current picture has no luma_weight_lX_flag / chroma_weight_lX_flag
-	// (7.3.6.3); the library reads one flag per entry regardless.
-	"hevc-slice-pwt-currpic-entry": true,
-}
-
-func hevcAvoid(name string) bool {
-	v, ok := hevcAvoidKnown[name]
-	if !ok {
-		panic("unknown hevc avoid switch " + name)
-	}
-	return v
-}
-
-// ---------------------------------------------------------------------------------------------
-// draw helpers (all randomness through rapid)
-
-// hevcPct: true with probability pct/100. rapid's integer generators are deliberately biased towards small
-// values (IntRange(0,99) < 4 holds in ~30 % of the draws), so the decision is made from fair coin flips
-// (rapid.Bool draws one bit): compare a uniform binary fraction with pct/100 bit by bit (2 flips on average).
-func hevcPct(t *rapid.T, pct int, label string) bool {
-	p := uint32(pct) * 65536 / 100 // 16-bit binary fraction
-	for i := 15; i >= 0; i-- {
-		pb := p>>uint(i)&1 == 1
-		if rapid.Bool().Draw(t, label) != pb {
-			return pb
-		}
-	}
-	return false
-}
-
-// hevcInt draws from [lo,hi], boundary heavy: the ends, their neighbours and powers of two +-1 get extra weight.
-func hevcInt(t *rapid.T, lo, hi int64, label string) int64 {
-	if hi <= lo {
-		return lo
-	}
-	if hi-lo < 8 {
-		return rapid.Int64Range(lo, hi).Draw(t, label)
-	}
-	switch rapid.IntRange(0, 9).Draw(t, label+"?") {
-	case 0:
-		return lo
-	case 1:
-		return hi
-	case 2:
-		return lo + 1
-	case 3:
-		return hi - 1
-	case 4:
-		// a power of two (or neighbour) inside the range
-		span := uint64(hi - lo)
-		k := rapid.IntRange(0, 63).Draw(t, label+"k")
-		for uint64(1)<<uint(k) > span {
-			k--
-		}
-		v := lo + int64(uint64(1)<<uint(k)) + int64(rapid.IntRange(-1, 1).Draw(t, label+"d"))
-		if v < lo {
-			v = lo
-		}
-		if v > hi {
-			v = hi
-		}
-		return v
-	case 5, 6:
-		// small values
-		h := lo + 16
-		if h > hi {
-			h = hi
-		}
-		return rapid.Int64Range(lo, h).Draw(t, label)
-	default:
-		return rapid.Int64Range(lo, hi).Draw(t, label)
-	}
-}
-
-// hevcUni draws from 0..n-1 (n <= 256) nearly uniformly from fair coin flips (see hevcPct).
-func hevcUni(t *rapid.T, n int, label string) int {
-	v := 0
-	for k := 1; k < 4*n; k <<= 1 {
-		v <<= 1
-		if rapid.Bool().Draw(t, label) {
-			v |= 1
-		}
-	}
-	return v % n
-}
-
-func hevcU(t *rapid.T, lo, hi uint64, label string) uint64 {
-	if hi > 1<<62 {
-		hi = 1 << 62
-	}
-	return uint64(hevcInt(t, int64(lo), int64(hi), label))
-}
-
-// hevcBits draws an n-bit pattern: all zero, all one, single bit or random.
-func hevcBits(t *rapid.T, n int, label string) uint64 {
-	mask := uint64(1)<<uint(n) - 1
-	if n >= 64 {
-		mask = ^uint64(0)
-	}
-	switch rapid.IntRange(0, 5).Draw(t, label+"?") {
-	case 0:
-		return 0
-	case 1:
-		return mask
-	case 2:
-		return uint64(1) << uint(rapid.IntRange(0, n-1).Draw(t, label+"b"))
-	default:
-		return rapid.Uint64().Draw(t, label) & mask
-	}
-}
-
-// hevcBytes draws exactly n bytes in one draw.
-func hevcBytes(t *rapid.T, n int, label string) []byte {
-	if n == 0 {
-		return nil
-	}
-	return rapid.SliceOfN(rapid.Byte(), n, n).Draw(t, label)
-}
+// The avoid switches (esgen.HEVCAvoidKnown), the draw helpers and the value-tree generators live in
+// verif/internal/esgen (shared with C16).
 
 // ---------------------------------------------------------------------------------------------
 // field-by-field diff
@@ -285,19 +135,4 @@ func hevcHas(classes []string, c string) bool {
 		}
 	}
 	return false
-}
-
-func hevcBucket(n int) string {
-	switch {
-	case n == 0:
-		return "0"
-	case n == 1:
-		return "1"
-	case n <= 4:
-		return "2-4"
-	case n <= 16:
-		return "5-16"
-	default:
-		return "17+"
-	}
 }
